@@ -131,11 +131,16 @@ var backends = []backend{
 	}},
 }
 
+// runSolver runs one solver on one query. The budget tsec is CPU seconds (ulimit -t in the child), not wall-clock time: the same
+// query gets the same verdict whether the machine is idle or heavily loaded (a loaded machine only makes the run take longer).
+// The solver's own wall-clock limit and the context deadline are generous guards (8x).
 func runSolver(b backend, file string, tsec int) (first string, out string, secs float64) {
-	argv := b.argv(file, tsec)
-	ctx, cancel := context.WithTimeout(context.Background(), time.Duration(tsec+5)*time.Second)
+	wall := tsec * 8
+	argv := b.argv(file, wall)
+	ctx, cancel := context.WithTimeout(context.Background(), time.Duration(wall+10)*time.Second)
 	defer cancel()
-	cmd := exec.CommandContext(ctx, argv[0], argv[1:]...)
+	sh := []string{"-c", fmt.Sprintf("ulimit -t %d; exec \"$@\"", tsec+1), "gvc-solver"}
+	cmd := exec.CommandContext(ctx, "/bin/bash", append(sh, argv...)...)
 	var buf bytes.Buffer
 	cmd.Stdout = &buf
 	cmd.Stderr = &buf
